@@ -8,6 +8,8 @@
        over escaped-string tokens: lit(c) a literal character, "plus" the literal '+', pct(c) a
        percent escape.  PIPE = "fixed": FromURL query-escapes and ToURL query-unescapes;
        PIPE = "pinned": PathEscape / PathUnescape, under which TLC derives "space comes back as +".
+       A URL that comes from a parser may carry a hint how its path was spelled (RawPath: needless or lower-case escapes, an
+       escaped slash); the conversion is a function of the path, not of its spelling -- the harness converts every URL in both forms.
    (2) URL structure.  [scheme, host kind, port, path] -> components -> URL; tls/http and https both
        denote https.
    (3) Address lists as set algebra over address classes (public / private / loopback / unspecified /
@@ -54,7 +56,7 @@ FindHTTP(l) == Sel(l, LAMBDA a : a.ip # "nil" /\ IsHTTP(a))
 FilterPublic(l) == Sel(l, LAMBDA a : a.ip = "nil" \/ IsPublic(a))          \* nil entries are retained (pinned test requires it)
 Clean(l) == Sel(l, LAMBDA a : a.ip # "nil")                                  \* as a multiset: CleanPeerAddrInfo reorders
 (* MultiaddrsEqual: the two lists hold the same addresses the same number of times, in any order (lists of any length: the
-   harness also compares lists of 11+ entries that differ only in how often an address occurs)                            *)
+   harness also compares lists of 9 to 260 entries that differ only in how often an address occurs, at the front or at the back)                            *)
 Occ(l, a) == Cardinality({i \in 1..Len(l) : l[i] = a})
 ListsEqual(l1, l2) == Len(l1) = Len(l2) /\ \A i \in 1..Len(l1) : Occ(l1, l1[i]) = Occ(l2, l1[i])
 
